@@ -787,7 +787,7 @@ class SqlalchemyRender:
 
         table = sa.table(table_name, schema=schema, *columns)
 
-        stmt = table.update().values(**to_update)
+        stmt = table.update().values(to_update)
 
         if ast_query.where is not None:
             stmt = stmt.where(self.to_expression(ast_query.where))
